@@ -33,6 +33,15 @@ func checkC15(w *World, tier string) *Report {
 	// place where transient storage is emptied at a transaction boundary: it must be the reference's
 	s.cloneRule(r, "R15.1r", pkRuntime, nil)
 	r.need("R15.1r", 3)
+	// transient storage is kept per contract address: the address a frame's code operates on is the reference's
+	// (the caller's under CALLCODE/DELEGATECALL) — shared with C10 R10.4
+	{
+		addrOf := map[string]bool{"(*Contract).Address": true, "(*Contract).AsDelegate": true, "NewContract": true, "(*EVM).DelegateCall": true, "(*EVM).CallCode": true,
+			"opDelegateCall": true, "opCallCode": true, "(*Contract).Caller": true, "(*Contract).SetCallCode": true, "(*Contract).SetCodeOptionalHash": true}
+		s.cloneRule(r, "R10.4", pkVM, func(name string, pr *PairResult) bool { return addrOf[name] })
+		r.need("R10.4", 7)
+		r.Explanation += " R10.4 (shared with C10) the address a frame's code operates on (Contract.Address, the CALLCODE/DELEGATECALL frame constructors) is the reference's: transient storage is keyed by it."
+	}
 	addR152(w, r, "R15.2")
 	addTableRules(w, r, "R15.2t")
 	addR153(w, r, "R15.3")
@@ -133,40 +142,7 @@ func addR152(w *World, r *Report, rule string) {
 			r.holds(rule, key, w.pos(l.pos), fmt.Sprintf("execute %s, constantGas %v, dynamicGas `%s`, memorySize `%s`, stack (%d,%d), installed by %s", wt.exec, cg, wt.dyn, wt.mem, wt.pops, wt.pushes, wt.inst))
 		}
 	}
-	// gasMcopy = memoryCopierGas(2)
-	{
-		key := "var gasMcopy"
-		ok, pos := false, token.NoPos
-		for _, f := range vm.Syntax {
-			for _, d := range f.Decls {
-				gd, isG := d.(*ast.GenDecl)
-				if !isG || gd.Tok != token.VAR {
-					continue
-				}
-				for _, sp := range gd.Specs {
-					vs := sp.(*ast.ValueSpec)
-					for i, n := range vs.Names {
-						if n.Name != "gasMcopy" || i >= len(vs.Values) {
-							continue
-						}
-						pos = n.Pos()
-						if call, isCall := vs.Values[i].(*ast.CallExpr); isCall && len(call.Args) == 1 {
-							if id, isId := call.Fun.(*ast.Ident); isId && id.Name == "memoryCopierGas" && isPkgLevel(info.Uses[id]) {
-								if c := constOf(info, call.Args[0]); c != nil && constant.Compare(c, token.EQL, constant.MakeInt64(2)) {
-									ok = true
-								}
-							}
-						}
-					}
-				}
-			}
-		}
-		if ok {
-			r.holds(rule, key, w.pos(pos), "memoryCopierGas(2): per-word copy gas on the length operand (stack position 2) plus memory expansion")
-		} else {
-			r.violated(rule, key, w.pos(pos), "gasMcopy must be memoryCopierGas(2): the length of MCOPY is its third operand")
-		}
-	}
+	addGasMcopyRule(w, r, rule)
 	// Cancun constructor
 	{
 		key := "vm.newCancunInstructionSet"
@@ -744,4 +720,45 @@ func maxOfParams(h *ssa.Function) string {
 		return "the comparison selects the smaller of the two starts"
 	}
 	return ""
+}
+
+// addGasMcopyRule: the gas function of MCOPY is memoryCopierGas(2) — per-word copy gas on the length operand
+// plus memory expansion (shared by C15 and C20: without it the work of a copy is not paid for).
+func addGasMcopyRule(w *World, r *Report, rule string) {
+	vm := w.Pkgs[forkPath(pkVM)]
+	info := vm.TypesInfo
+	// gasMcopy = memoryCopierGas(2)
+	{
+		key := "var gasMcopy"
+		ok, pos := false, token.NoPos
+		for _, f := range vm.Syntax {
+			for _, d := range f.Decls {
+				gd, isG := d.(*ast.GenDecl)
+				if !isG || gd.Tok != token.VAR {
+					continue
+				}
+				for _, sp := range gd.Specs {
+					vs := sp.(*ast.ValueSpec)
+					for i, n := range vs.Names {
+						if n.Name != "gasMcopy" || i >= len(vs.Values) {
+							continue
+						}
+						pos = n.Pos()
+						if call, isCall := vs.Values[i].(*ast.CallExpr); isCall && len(call.Args) == 1 {
+							if id, isId := call.Fun.(*ast.Ident); isId && id.Name == "memoryCopierGas" && isPkgLevel(info.Uses[id]) {
+								if c := constOf(info, call.Args[0]); c != nil && constant.Compare(c, token.EQL, constant.MakeInt64(2)) {
+									ok = true
+								}
+							}
+						}
+					}
+				}
+			}
+		}
+		if ok {
+			r.holds(rule, key, w.pos(pos), "memoryCopierGas(2): per-word copy gas on the length operand (stack position 2) plus memory expansion")
+		} else {
+			r.violated(rule, key, w.pos(pos), "gasMcopy must be memoryCopierGas(2): the length of MCOPY is its third operand")
+		}
+	}
 }
